@@ -224,7 +224,7 @@ EvStart(t, from) ==
   /\ em'  = [em EXCEPT ![t] = <<0>>]
   /\ dl'  = [dl EXCEPT ![t] = <<0>>]
   /\ life' = [life EXCEPT ![t] = "running"]
-  /\ ck'  = [ck EXCEPT ![t] = IF from # NoTrial THEN "present" ELSE "none"]
+  /\ ck'  = [ck EXCEPT ![t] = IF from \in Trials /\ ck[from] = "present" THEN "present" ELSE "none"]
   /\ nstart' = nstart + 1
   /\ cq' = IF from \in Trials /\ cq[from] > 0 THEN [cq EXCEPT ![from] = @ - 1] ELSE cq
   /\ xf' = xf \ {t}
@@ -291,6 +291,7 @@ MonCritHolds ==
     [] cf.ckind = "minmetric" -> mst.min < cf.k          \* some handed evaluation below the threshold
     [] cf.ckind = "maxmetric" -> mst.max > cf.k
     [] cf.ckind = "cost"      -> SumSeq([j \in 1..NT |-> mst.cost[j-1]]) > cf.k
+    [] cf.ckind = "minmax"    -> mst.min < cf.k \/ mst.max > cf.k2      \* both thresholds given: either one trips
     [] OTHER                  -> FALSE
 \* Tuner._stop_condition() evaluated to b at the end of an iteration
 EvStopCrit(b) ==
@@ -406,6 +407,7 @@ ImplCrit ==
     [] cf.ckind = "minmetric" -> mst.min < cf.k
     [] cf.ckind = "maxmetric" -> mst.max > cf.k
     [] cf.ckind = "cost"      -> SumSeq([j \in 1..NT |-> mst.cost[j-1]]) > cf.k
+    [] cf.ckind = "minmax"    -> mst.min < cf.k \/ mst.max > cf.k2      \* both thresholds given: either one trips
     [] OTHER                  -> FALSE
 ImplStopCondition == ImplCrit \/ TssCount({"Failed"}) > cf.maxfail
 
